@@ -89,16 +89,22 @@ func (r *reloadHAProxy) When(_ any) time.Duration {
 	defer r.mu.Unlock()
 
 	now := time.Now()
-	next := r.last.Add(r.interval)
+
+	// a reload is already scheduled, return the remaining time
+	if r.last.After(now) {
+		return r.last.Sub(now)
+	}
 
 	// not rate limited, allow to reload now
+	next := r.last.Add(r.interval)
 	if next.Before(now) {
 		r.last = now
 		return 0
 	}
 
-	// rate limited, return the remaining time to the next reload
-	return time.Until(next)
+	// rate limited, schedule and return the remaining time to the next reload
+	r.last = next
+	return next.Sub(now)
 }
 
 func (r *reloadHAProxy) NumRequeues(_ any) int {
